@@ -294,6 +294,15 @@ def main():
         if r.get("driver_error"):
             print(f"ERROR model driver failed: {r['driver_error']}")
             return 2
+        # cases the harness could not run at all (child processes killed or not started on an overloaded machine) are not
+        # answers of the implementation: they are left out of the comparison and reported; if most cases were lost the run
+        # says nothing, which is an infrastructure error, not a verdict
+        not_run = r.get("histogram", {}).get("infra.not-run", 0)
+        if not_run:
+            print(f"NOTE engine {eng['name']}: {not_run} of {r.get('evaluations', '?')} cases could not be run (machine load); they are not part of the comparison")
+            if r.get("evaluations") and not_run * 2 > r["evaluations"]:
+                print(f"ERROR engine {eng['name']}: most cases could not be run")
+                return 2
         reports.append(r)
 
     known = [k for k in load_known() if isinstance(k, dict) and k.get("status") == "known" and k.get("property") == pid]
